@@ -6,7 +6,7 @@ From VF Require Import Lifecycle.Pool Lifecycle.PoolProofs Lifecycle.Fin Lifecyc
   Lifecycle.HttpLife Lifecycle.HttpLifeProofs Lifecycle.LifeSeq.
 Import ListNotations.
 
-Definition all_sop (f : sop -> bool) : bool := f SStart && f SStop && f SRequest && f STick && f SStopBusy && f SStartFail && f SStartThreadFail.
+Definition all_sop (f : sop -> bool) : bool := f SStart && f SStop && f SRequest && f STick && f SStopBusy && f SStartFail && f SStartThreadFail && f SStopOpenConn.
 Lemma all_sop_ok f : all_sop f = true -> forall x, f x = true.
 Proof. unfold all_sop. intros H x. repeat (apply andb_prop in H; destruct H as [H ?]). destruct x; assumption. Qed.
 
